@@ -190,3 +190,18 @@ func TestOdtTableContentModel(t *testing.T) {
 		last = i
 	}
 }
+
+// C16 / R16.13: a <text:span> is an inline container like the paragraph itself: it may hold <text:s/>, <text:tab/>,
+// <text:line-break/>, hyperlinks and further spans (ODF 1.2 part 1, 6.1.7). spanXML kept only the span's direct
+// character data, so the text of a nested span and the blanks written as <text:s/> inside a span were lost.
+func TestOdtSpanInlineContent(t *testing.T) {
+	p := odtOf(t, `<text:p>start <text:span text:style-name="T1">bold <text:span text:style-name="T2">and italic</text:span><text:s text:c="2"/>tail</text:span> end</text:p>`)
+	got, _, err := tabula.Open(p).Text()
+	if err != nil {
+		t.Fatal(err)
+	}
+	want := "start bold and italic  tail end"
+	if strings.TrimSpace(got) != want {
+		t.Fatalf("text = %q, want %q", strings.TrimSpace(got), want)
+	}
+}
